@@ -5,6 +5,7 @@ import (
 	"flag"
 	"fmt"
 	"os"
+	"os/exec"
 	"path/filepath"
 	"sort"
 	"strings"
@@ -159,6 +160,8 @@ func main() {
 		os.Exit(runCheck(pos[0], *tier, *repo, *verif, *verbose, *tmo))
 	case "func":
 		os.Exit(runFuncs(pos, *repo, *verif, *verbose, *dump, *tmo))
+	case "core":
+		os.Exit(runCore(pos, *repo, *verif))
 	case "lock":
 		os.Exit(runLock(pos, *repo, *verif, *tmo))
 	case "list":
@@ -332,6 +335,31 @@ func runProperty(eng *Engine, prop string, timeout time.Duration, dir string) *p
 		obls = append(obls, o)
 	}
 	pr.results = solveAll(eng, obls, timeout, dir, 6)
+	// lemmas used as hypotheses are obligations of this run too (whatever property they are tagged with)
+	have := map[string]bool{}
+	for _, l := range lemmas {
+		have[l] = true
+	}
+	for round := 0; round < 5; round++ {
+		var more []*Obligation
+		for _, r := range pr.results {
+			for _, a := range append(append([]string{}, r.ax...), r.o.lemmaUses...) {
+				if ax := eng.contracts.Axioms[a]; ax != nil && ax.Lemma && !have[a] {
+					have[a] = true
+					o, err := eng.lemmaObligation(a)
+					if err != nil {
+						pr.errors = append(pr.errors, fmt.Sprintf("lemma %s: %v", a, err))
+						continue
+					}
+					more = append(more, o)
+				}
+			}
+		}
+		if len(more) == 0 {
+			break
+		}
+		pr.results = append(pr.results, solveAll(eng, more, timeout, dir, 6)...)
+	}
 	for _, r := range pr.results {
 		pr.solverSec += r.res.Seconds
 	}
@@ -703,4 +731,74 @@ func runLock(props []string, repo, verif string, tmo int) int {
 // tryReplay: placeholder for model replay adapters (see replay.go).
 func tryReplay(eng *Engine, r oblResult, verif string) (bool, string) {
 	return replayObligation(eng, r, verif)
+}
+
+// runCore: debugging aid. Prints an unsat core (as terms) of the hypotheses of one obligation.
+func runCore(args []string, repo, verif string) int {
+	eng, err := NewEngine(repo, verif)
+	if err != nil {
+		fmt.Fprintln(os.Stderr, err)
+		return 2
+	}
+	rep := eng.verifyFunc(args[0])
+	if rep.Err != "" {
+		fmt.Println(rep.Err)
+		return 2
+	}
+	dir := scratchDir()
+	defer os.RemoveAll(dir)
+	fmt.Println(len(rep.Obligations), "obligations")
+	for _, o := range rep.Obligations {
+		if !strings.Contains(o.Name, args[1]) {
+			continue
+		}
+		hyps := append([]*Term{}, o.exec.assumes[:o.NAssume]...)
+		hyps = append(hyps, o.PC, Not(o.Goal))
+		sc := &Script{Asserts: hyps}
+		text := sc.Render("ALL", nil, false)
+		// name the assertions
+		lines := strings.Split(text, "\n")
+		var out []string
+		n := 0
+		idx := map[string]int{}
+		started := false
+		for _, l := range lines {
+			if strings.HasPrefix(l, "(assert ") && strings.HasSuffix(l, ")") {
+				// only the trailing block of len(hyps) asserts are ours; name all, map the last ones
+				name := fmt.Sprintf("a%d", n)
+				idx[name] = n
+				n++
+				l = "(assert (! " + l[len("(assert "):len(l)-1] + " :named " + name + "))"
+				started = true
+			}
+			_ = started
+			if l == "(check-sat)" {
+				out = append(out, l, "(get-unsat-core)")
+				continue
+			}
+			out = append(out, l)
+		}
+		script := "(set-option :produce-unsat-cores true)\n" + strings.Join(out, "\n")
+		file := filepath.Join(dir, "core.smt2")
+		os.WriteFile(file, []byte(script), 0o644)
+		res, _ := execCmd("z3-new", "-T:60", file)
+		fmt.Println(o.Name, "->", firstLine(res))
+		total := n
+		first := total - len(hyps)
+		for _, w := range strings.Fields(strings.NewReplacer("(", " ", ")", " ").Replace(res)) {
+			if k, ok := idx[w]; ok {
+				if k >= first {
+					fmt.Printf("  [%d] %s\n", k-first, hyps[k-first].Short())
+				} else {
+					fmt.Printf("  [builtin axiom %d]\n", k)
+				}
+			}
+		}
+	}
+	return 0
+}
+
+func execCmd(name string, args ...string) (string, error) {
+	out, err := exec.Command(name, args...).CombinedOutput()
+	return string(out), err
 }
